@@ -25,7 +25,8 @@ UT == {File1(<<Text(ps)>>) : ps \in {x \in TextSeqs : GoodText(x) /\ \E i \in 1.
 (* template data, includes, slot values, wxs: contexts through which a marked path must travel *)
 DefT == [n |-> "t", ch |-> <<Text(<<S("["), P(Id("y")), S("|"), P(Mem(Id("z"), "p")), S("]")>>),
                             Elem("v", <<Attr("plain", "p", EV(Id("y")))>>, <<>>)>>]
-FileD(root) == << [path |-> "a", imports |-> <<>>, wxs |-> <<>>, defs |-> <<DefT>>, root |-> root] >>
+DefO == [n |-> "t2", ch |-> <<Text(<<S("<"), P(Mem(Id("o"), "p")), S(">")>>)>>]
+FileD(root) == << [path |-> "a", imports |-> <<>>, wxs |-> <<>>, defs |-> <<DefT, DefO>>, root |-> root] >>
 TData == {EV(Obj(<<Named("y", EA), Named("z", Id("o"))>>)), EV(Obj(<<Named("y", Mem(Id("o"), "p"))>>)),
           EV(Obj(<<Spread(Id("o")), Named("y", EB)>>)), EV(Obj(<<Named("y", Idx(Id("l"), Lit("0"))), Named("z", Obj(<<Named("p", EA)>>))>>)),
           EV(Obj(<<Short("o"), Named("y", Cond(EA, EB, Lit("'x'")))>>)), EV(Obj(<<Named("z", Id("o")), Named("y", Arr(<<Item(EA)>>))>>)),
@@ -33,6 +34,8 @@ TData == {EV(Obj(<<Named("y", EA), Named("z", Id("o"))>>)), EV(Obj(<<Named("y", 
              parentheses - `{{ o }}` is the literal `{o: o}`), a conditional, a string (no data at all) *)
           EV(Id("o")), EV(Cond(EA, Id("o"), Obj(<<Named("y", EB)>>))), EV(Lit("'abc'"))}
 UD == {FileD(<<TmplIs(SV("t"), d)>>) : d \in TData}
+      (* data that is ONE shorthand field (`data="{{ o }}"` is the object {o: o}, in every quoting of the attribute) *)
+      \cup {FileD(<<TmplIs(SV("t2"), EV(Obj(<<Short("o")>>)))>>), FileD(<<TmplIs(SV("t2"), EV(Id("o")))>>)}
       \cup {FileD(<<TmplIs(EV(Cond(EA, Lit("'t'"), Lit("''"))), EV(Obj(<<Named("y", EB)>>)))>>),
             FileD(<<For(EV(Id("l")), "item", "index", "", <<TmplIs(SV("t"), EV(Obj(<<Named("y", Id("item")), Named("z", Id("o"))>>)))>>)>>),
             FileD(<<If(<<[c |-> EV(EA), ch |-> <<TmplIs(SV("t"), EV(Obj(<<Named("y", EB)>>)))>>]>>, FALSE, <<>>)>>)}
